@@ -786,6 +786,23 @@ def gen_trace(rng, check, population, tier='quick'):
                 c_['faults'] = [dict(f_) for f_ in conns[0]['faults']]
                 c_['cuts'] = [list(x) for x in conns[0]['cuts']]
                 c_['closes'] = []
+        if r.random() < 0.10:
+            # very deep (but decodable) tables in every thread at once: depth
+            # bookkeeping that is not per call shows when two deep decodes
+            # overlap
+            from sim.values import to_desc
+            depth = r.choice((120, 200, 240))
+            for c_ in conns:
+                dd = {'k': 'method', 'cls': 'Queue.Declare',
+                      'ch': g.channel(),
+                      'args': {'queue': 'deep', 'arguments': {
+                          'deep': [depth, cfg['marker']]}}}
+                for _ in range(r.choice((1, 2))):
+                    c_['frames'].insert(r.randrange(len(c_['frames']) + 1),
+                                        dd)
+                c_['cuts'] = []
+                c_['closes'] = []
+                c_['faults'] = []
         est = sum(len(c['frames']) for c in conns) * 400
         sched_list, policy = gen_b.gen_schedule(r, nthreads, est)
         tr = {'world': 'A', 'check': check, 'population': population,
